@@ -49,7 +49,7 @@ CHECKS = {
     },
     "C08": {
         "technique": "TLA+ action property PermEquivariant (Design_MC) model checked with TLC over all permutations of small frames and replayed; recorded pairs of builds on transformed frames judged by TLC (rows relation)",
-        "text": "TLC proves on every small-scope frame and every non-identity permutation that the Abs design of the permuted frame is the row-permuted design with identical labels and slices, and every permuted frame is replayed into design_matrices. Random worlds x formulas (stateful transforms, codings, group terms, categorical responses) are built on the frame and on a copy with permuted rows, a non-unique / float / unsorted / reset index, shuffled columns and unused columns added (incl. NA) or dropped (also for formulas that name no column of the frame); TLC judges b[i] = a[perm[i]] on interned values with equal labels, levels and slices.",
+        "text": "TLC proves on every small-scope frame and every non-identity permutation that the Abs design of the permuted frame is the row-permuted design with identical labels and slices, and every permuted frame is replayed into design_matrices (quick: 3-row frames, all; thorough: 4-row frames, a uniform sample of 120 000 of the exported cases). Random worlds x formulas (stateful transforms, codings, group terms, categorical responses) are built on the frame and on a copy with permuted rows, a non-unique / float / unsorted / reset index, shuffled columns and unused columns added (incl. NA) or dropped (also for formulas that name no column of the frame); TLC judges b[i] = a[perm[i]] on interned values with equal labels, levels and slices.",
         "ref": "DESIGN.md §4 C08",
         "note": "Trusted: TLC, fv/rows.py. Equality up to 1e-9 relative (summation order changes the last bits of fitted means).",
     },
